@@ -44,6 +44,51 @@ def tlc_parallel(jobs):
         return [f.result() for f in futs]
 
 
+def subsets_desc(devs):
+    """all subsets of the listed deviations, largest first"""
+    import itertools
+    out = []
+    for n in range(len(devs), -1, -1):
+        out += [frozenset(x) for x in itertools.combinations(devs, n)]
+    return out
+
+
+def settle(all_devs, judge, primary, alternatives):
+    """The tree under test has some subset S of the listed deviations (all of them on the unchanged tree, fewer once
+    defects are repaired).  judge(pred) compares every real observation with the property's answer and, where they
+    differ, with the model's prediction pred for one S; it returns (violations, known hits, stats).  S = all listed
+    deviations comes from the primary TLC run; only if that leaves contradictions unexplained are the other subsets
+    computed (alternatives() -> {S: pred}).  The verdict is the one of the largest S that explains every observation;
+    if none does, the contradictions left by the best S are reported."""
+    v, k, st = judge(primary)
+    if not v:
+        return v, k, st, frozenset(all_devs)
+    best = (len(v), v, k, st, frozenset(all_devs))
+    alt = alternatives()
+    for S in subsets_desc(all_devs):
+        if S == frozenset(all_devs) or S not in alt:
+            continue
+        v2, k2, st2 = judge(alt[S])
+        if not v2:
+            return v2, k2, st2, S
+        if len(v2) < best[0]:
+            best = (len(v2), v2, k2, st2, S)
+    return best[1], best[2], best[3], best[4]
+
+
+def report(res, known, verdict, prop):
+    violations, hits, stats, S = verdict
+    for d, example in hits:
+        if d in known:
+            res.known_finding(known[d], example)
+        else:
+            res.violation("deviation %s observed but not listed as an open known finding: %s" % (d, json.dumps(example, default=str)[:800]),
+                          {"check": "repl", "prop": prop, "deviation": d, "example": example, "seed": vlib.seed()})
+    for desc, replay in violations:
+        res.violation(desc, replay)
+    return stats, S
+
+
 def rows_of(obs, key):
     """query observation -> (column names, [row tuples]) ; a missing bucket is an empty result"""
     if not isinstance(obs, dict):
@@ -188,13 +233,30 @@ def agg_case(c, beh):
     ops = []
     for st in beh:
         ops.append({"op": "write", "buckets": [{"key": c.sym + "/1Min/OHLCV", "cols": c.cols(st["rows"])}]})
-        ops.append({"op": "agg_wait", "x": {"fires": 1, "timeout_ms": 20000}})
+        ops.append({"op": "agg_wait", "x": {"fires": 1, "records": len(st["recs"]), "timeout_ms": 30000}})
         for di in range(len(c.reals)):
             ops.append({"op": "query", "dest": c.dest_key(di)})
     ops.append({"op": "destroy", "key": c.sym + "/1Min/OHLCV"})
     for di in range(len(c.reals)):
         ops.append({"op": "destroy", "key": c.dest_key(di)})
     return ops
+
+
+def agg_script_module(scripts):
+    """AggTrigger_Script: the replayed histories as scripts, every subset of the listed deviations"""
+    body = ",\n  ".join("<<" + ", ".join("<<" + ", ".join(str(p) for p in req) + ">>" for req in sc) + ">>" for sc in scripts)
+    return """---- MODULE AggTrigger_Script ----
+EXTENDS AggTrigger
+VARIABLES sid, dv
+Scripts == <<
+  %s
+>>
+InitS == Init /\\ sid \\in 1..Len(Scripts) /\\ dv \\in SUBSET Deviations
+NextS == /\\ UNCHANGED <<sid, dv>>
+         /\\ (FireWith(dv) \\/ (Len(hist) < Len(Scripts[sid]) /\\ WriteBase(Scripts[sid][Len(hist) + 1])))
+EmitS == (pending = <<>> /\\ Len(hist) = Len(Scripts[sid])) => PrintT(<<"SBEH", ToJson([sid |-> sid, dv |-> dv, hist |-> hist])>>)
+====
+""" % body
 
 
 def run_c24(tier):
@@ -226,8 +288,8 @@ def run_c24(tier):
             kw = dict(simulate=nsim, depth=2 * depth + 1, seed_=rng.randrange(1, 2 ** 31), workers=1, timeout=900 if quick else 6000,
                       heap="2g", cfg_text=vlib.cfg_text(consts, invariants=invs, view="View"))
         jobs.append(("AggTrigger", name, kw))
-        info.append((cname, maxrows, depth, mode, nreplay, nsim, hmul, lmul, name))
-    for (cname, maxrows, depth, mode, nreplay, nsim, hmul, lmul, name), r in zip(info, tlc_parallel(jobs)):
+        info.append((cname, maxrows, depth, mode, nreplay, nsim, hmul, lmul, name, consts))
+    for pi, ((cname, maxrows, depth, mode, nreplay, nsim, hmul, lmul, name, consts), r) in enumerate(zip(info, tlc_parallel(jobs))):
         cfg = AGG_CONFIGS[cname]
         vlib.tlc_ok(r, name)
         if r["violated"]:
@@ -241,7 +303,7 @@ def run_c24(tier):
         if nreplay is not None and len(got) > nreplay:
             got = rng.sample(got, nreplay)      # seeded uniform sample of the enumerated histories
         for b in got:
-            behs.append((cname, hmul, lmul, b))
+            behs.append((pi, cname, hmul, lmul, b))
     # ------------------------------ replay into the real trigger ------------------------------
     root = os.path.join(vlib.scratch(), "root_c24")
     trigs = [{"dests": AGG_CONFIGS[cn]["reals"][k], "on": "%s_*/1Min/OHLCV" % pref} for cn, k, pref in agg_triggers()]
@@ -249,12 +311,11 @@ def run_c24(tier):
         if rng.random() < 0.5:
             t["dests"] = list(reversed(t["dests"]))     # configuration order of the destinations
     cases = [{"id": "start", "ops": [{"op": "agg_start", "root": root, "x": {"triggers": trigs, "filter": ""}}]}]
-    meta = {}
-    for n, (cname, hmul, lmul, beh) in enumerate(behs):
+    meta = []
+    for n, (pi, cname, hmul, lmul, beh) in enumerate(behs):
         c = AggConc(rng, cname, hmul, lmul, n)
-        cid = "h%d" % n
-        cases.append({"id": cid, "ops": agg_case(c, beh)})
-        meta[json.dumps(cid)] = (c, beh)
+        cases.append({"id": "h%d" % n, "ops": agg_case(c, beh)})
+        meta.append((pi, c, beh))
     vlib.log("[C24] %d histories concretised after %.0fs, replaying" % (len(meta), __import__("time").time() - res.t0))
     obs = vlib.run_cases(binary, cases, timeout=1500 if quick else 7000)
     shutil.rmtree(root, ignore_errors=True)
@@ -262,73 +323,132 @@ def run_c24(tier):
     st0 = obs.get(json.dumps("start"))
     if not isinstance(st0, list) or not st0[0].get("ok"):
         raise Undecided("instance with the aggregation triggers did not start: %s" % (st0,))
-    dev_steps, fidelity, steps = {}, 0, 0
-    for cid, (c, beh) in meta.items():
-        o = obs.get(cid)
-        ops = [x for x in cases if json.dumps(x["id"]) == cid][0]["ops"]
-        replay = {"check": "repl", "prop": prop, "concretisation": c.describe(), "behaviour": [s["rows"] for s in beh],
-                  "triggers": trigs, "ops": ops, "seed": vlib.seed()}
+    # ------------------------------ what the real code did ------------------------------
+    # per history: ("died", text) | list of steps; a step is ("writefail", obs) | ("split",) | ("ok", [rows per destination], panic)
+    names_of = lambda c: ["Epoch", "Open", "High", "Low", "Close"] + (["Volume"] if c.vtype else [])
+    real, split = [], 0
+    for n, (pi, c, beh) in enumerate(meta):
+        o = obs.get(json.dumps("h%d" % n))
         if o is None:
-            raise Undecided("no observation for case %s" % cid)
+            raise Undecided("no observation for case h%d" % n)
         if isinstance(o, dict) and "died" in o:
-            res.violation("server process died (%s) while aggregating %s: %s" % (o["died"], c.sym, o["stderr"][-500:]), replay)
+            real.append(("died", "%s: %s" % (o["died"], o["stderr"][-500:])))
             continue
         res.cov["traces_validated_against_impl"] += 1
-        nd = len(c.reals)
-        pos = 0
+        nd, pos, steps = len(c.reals), 0, []
         for k, st in enumerate(beh):
             w, wait = o[pos], o[pos + 1]
             qs = o[pos + 2: pos + 2 + nd]
             pos += 2 + nd
             if w.get("driver_error") or wait.get("driver_error"):
-                raise Undecided("driver error in %s step %d: %s %s" % (cid, k, w, wait))
+                raise Undecided("driver error in h%d step %d: %s %s" % (n, k, w, wait))
             if w.get("err") or w.get("panic"):
-                res.violation("base write failed on %s step %d: %s" % (c.sym, k, w), replay)
+                steps.append(("writefail", w))
                 break
             fires = wait.get("fires") or []
-            if len(fires) != 1 or fires[0]["idx"] != [c.index(r["p"]) for r in st["recs"]]:
-                raise Undecided("MODEL-DRIFT: the trigger was fired with records %s, the model expects indexes %s" % (
-                    fires, [c.index(r["p"]) for r in st["recs"]]))
-            steps += 1
-            bad = None
-            all_known = True
+            want_idx = [c.index(r["p"]) for r in st["recs"]]
+            if len(fires) > 1 and sum((f["idx"] for f in fires), []) == want_idx:
+                # the background WAL writer's ticker flushed the request in several transaction groups, so the
+                # trigger ran once per group: the model's single-Fire prediction does not describe this run
+                split += 1
+                steps.append(("split",))
+                break
+            if len(fires) != 1 or fires[0]["idx"] != want_idx:
+                raise Undecided("MODEL-DRIFT: the trigger was fired with records %s, the model expects indexes %s" % (fires, want_idx))
+            rows = []
             for di in range(nd):
-                real = rows_of(qs[di], c.dest_key(di))
-                want = c.dest_rows(st["expect"][di], di)      # the model lists the destinations by ascending window size, like c.reals
-                kn = c.dest_rows(st["known"][di], di)
-                names = ["Epoch", "Open", "High", "Low", "Close"] + (["Volume"] if c.vtype else [])
-                ok = not isinstance(real, str) and (real[0] == names or not real[1]) and same_rows(real[1], want)
-                okk = not isinstance(real, str) and (real[0] == names or not real[1]) and same_rows(real[1], kn)
-                all_known = all_known and okk
-                if not ok and bad is None:
-                    bad = (di, real, want)
-            fidelity += 1 if all_known else 0
-            if bad is None:
-                continue
-            di, real, want = bad
-            hit = st["hit"]
-            if hit and all_known:
-                for d in hit:
-                    dev_steps[d] = dev_steps.get(d, 0) + 1
-                    if d in known:
-                        res.known_finding(known[d], {"destinations": c.reals, "requests": [c.describe_rows(s["rows"]) for s in beh[:k + 1]],
-                                                     "bucket": c.dest_key(di), "real": real[1][:4], "property": want[:4]})
-                    else:
-                        res.violation("deviation %s observed but not listed as known: %s after request %d holds %s, the property demands %s" % (
-                            d, c.dest_key(di), k + 1, real, want), replay)
-                continue
-            fired = fires[0].get("panic")
-            res.violation("after request %d of %s (requests %s) the destination %s holds %s; the property demands %s (aggregate of the base bars stored per window)%s" % (
-                k + 1, c.sym, [c.describe_rows(s["rows"]) for s in beh[:k + 1]], c.dest_key(di), str(real)[:500], want,
-                "; Fire panicked: %s" % fired if fired else ""), replay)
-            break
+                x = rows_of(qs[di], c.dest_key(di))
+                if not isinstance(x, str) and x[1] and x[0] != names_of(c):
+                    x = "columns %s: %s" % (x[0], x[1])
+                rows.append(x)
+            steps.append(("ok", rows, fires[0].get("panic")))
+        real.append(steps)
         res.sample({"concretisation": c.describe(), "requests": [s["rows"] for s in beh]}, limit=3)
-    res.cov["requests_replayed"] = steps
-    res.cov["steps_equal_to_implementation_shaped_model"] = fidelity
-    res.cov["steps_showing_known_deviation"] = dev_steps
-    res.cov["destination_configs"] = sorted(set(tuple(c.reals) for c, _ in meta.values()))
+    if split > len(meta) // 20:
+        raise Undecided("%d of %d histories were split by the background WAL flush" % (split, len(meta)))
+
+    def judge(pred):
+        """pred[n] = model steps (expect / known / hit) of history n, or None when it is not needed"""
+        violations, hits, stats = [], [], {"requests": 0, "equal_to_model": 0, "deviation_steps": {}}
+        for n, (pi, c, beh) in enumerate(meta):
+            replay = {"check": "repl", "prop": prop, "concretisation": c.describe(), "behaviour": [s["rows"] for s in beh],
+                      "triggers": trigs, "ops": cases[n + 1]["ops"], "seed": vlib.seed()}
+            if real[n] and real[n][0] == "died":
+                violations.append(("server process died (%s) while aggregating %s" % (real[n][1], c.sym), replay))
+                continue
+            for k, step in enumerate(real[n]):
+                reqs = [c.describe_rows(s["rows"]) for s in beh[:k + 1]]
+                if step[0] == "writefail":
+                    violations.append(("base write failed on %s request %d: %s" % (c.sym, k + 1, step[1]), replay))
+                    break
+                if step[0] == "split":
+                    break
+                stats["requests"] += 1
+                bad = None
+                for di, x in enumerate(step[1]):
+                    want = c.dest_rows(beh[k]["expect"][di], di)     # destinations by ascending window size, like c.reals
+                    if isinstance(x, str) or not same_rows(x[1], want):
+                        bad = (di, x, want)
+                        break
+                mst = pred[n][k] if pred.get(n) is not None else None
+                all_known = mst is not None and all(not isinstance(x, str) and same_rows(x[1], c.dest_rows(mst["known"][di], di))
+                                                    for di, x in enumerate(step[1]))
+                stats["equal_to_model"] += 1 if (all_known or (mst is None and bad is None)) else 0
+                if bad is None:
+                    continue
+                di, x, want = bad
+                if mst is not None and mst["hit"] and all_known:
+                    for d in mst["hit"]:
+                        stats["deviation_steps"][d] = stats["deviation_steps"].get(d, 0) + 1
+                        hits.append((d, {"destinations": c.reals, "requests": reqs, "bucket": c.dest_key(di),
+                                         "real": x[1][:4], "property": want[:4]}))
+                    continue
+                violations.append(("after request %d of %s (requests %s) the destination %s holds %s; the property demands %s (aggregate of the base bars stored per window)%s" % (
+                    k + 1, c.sym, reqs, c.dest_key(di), str(x)[:500], want, "; Fire panicked: %s" % step[2] if step[2] else ""), replay))
+                break
+        return violations, hits, stats
+
+    def alternatives():
+        """predictions for every subset of the listed deviations, for the histories whose real result differs
+        somewhere from the property's answer (AggTrigger_Script quantifies over SUBSET Deviations)"""
+        need = {}
+        for n, (pi, c, beh) in enumerate(meta):
+            if not real[n] or real[n][0] == "died":
+                continue
+            for k, step in enumerate(real[n]):
+                if step[0] == "ok" and any(isinstance(x, str) or not same_rows(x[1], c.dest_rows(beh[k]["expect"][di], di))
+                                            for di, x in enumerate(step[1])):
+                    need.setdefault(pi, []).append(n)
+                    break
+        jobs2, order = [], []
+        for pi, ns in sorted(need.items()):
+            consts = info[pi][9]
+            scripts = [[[r["p"] for r in st["rows"]] for st in meta[n][2]] for n in ns]
+            jobs2.append(("AggTrigger_Script", "script_%d.cfg" % pi, dict(
+                timeout=1500 if quick else 6000, heap="6g", workers=6, files={"AggTrigger_Script.tla": agg_script_module(scripts)},
+                cfg_text=vlib.cfg_text(consts, invariants=["EmitS"], init_next=("InitS", "NextS")))))
+            order.append(ns)
+        alt = {S: {} for S in subsets_desc(AGG_DEVS)}
+        for ns, r in zip(order, tlc_parallel(jobs2)):
+            vlib.tlc_ok(r, "AggTrigger_Script")
+            res.tlc(r, "AggTrigger_Script")
+            recs = r["records"].get("SBEH", [])
+            if len(recs) != len(ns) * 2 ** len(AGG_DEVS):
+                raise Undecided("AggTrigger_Script emitted %d predictions for %d histories" % (len(recs), len(ns)))
+            for x in recs:
+                alt[frozenset(x["dv"])][ns[x["sid"] - 1]] = x["hist"]
+        return alt
+
+    primary = {n: beh for n, (pi, c, beh) in enumerate(meta)}
+    stats, S = report(res, known, settle(AGG_DEVS, judge, primary, alternatives), prop)
+    res.cov["requests_replayed"] = stats["requests"]
+    res.cov["histories_cut_short_because_the_background_flush_split_a_request"] = split
+    res.cov["steps_equal_to_implementation_shaped_model"] = stats["equal_to_model"]
+    res.cov["steps_showing_known_deviation"] = stats["deviation_steps"]
+    res.cov["deviations_of_the_tree_under_test"] = sorted(S)
+    res.cov["destination_configs"] = sorted(set(tuple(c.reals) for _, c, _ in meta))
     res.assumptions += ["time zone UTC", "base timeframe 1Min, trigger pattern <prefix>_*/1Min/OHLCV", "no market-hours filter",
-                        "the harness waits until Fire has returned before the next request (quiescence)"]
+                        "server default background WAL writer; the harness waits until Fire has returned before the next request (quiescence)"]
     return res.finish()
 
 
@@ -512,6 +632,28 @@ def matches_view(c, b, view, real, tol):
     return bag_match(want, split_time(names, rows), tol if view["nanos"] else 0)
 
 
+def repl_script_module(scripts):
+    """Repl_Script: the replayed histories as scripts, every subset of the listed deviations"""
+    def ws(x):
+        return '[b |-> "%s", i |-> %d, os |-> <<%s>>]' % (x["b"], x["i"], ", ".join(str(r["o"]) for r in x["recs"]))
+    body = ",\n  ".join("<<" + ", ".join("<<" + ", ".join(ws(x) for x in tg) + ">>" for tg in sc) + ">>" for sc in scripts)
+    return """---- MODULE Repl_Script ----
+EXTENDS Repl
+VARIABLES sid, dv
+Scripts == <<
+  %s
+>>
+InitS == Init /\\ sid \\in 1..Len(Scripts) /\\ dv \\in SUBSET Deviations
+Cur == Len(hist) + 1
+NextS == /\\ UNCHANGED <<sid, dv>>
+         /\\ (IF Cur <= Len(Scripts[sid]) /\\ Len(open) < Len(Scripts[sid][Cur])
+             THEN (LET ws == Scripts[sid][Cur][Len(open) + 1] IN IF ws.b = "F" THEN AddF(ws.i) ELSE AddV(ws.i, ws.os))
+             ELSE FlushWith(dv))
+EmitS == (open = <<>> /\\ Len(hist) = Len(Scripts[sid])) => PrintT(<<"SBEH", ToJson([sid |-> sid, dv |-> dv, hist |-> hist])>>)
+====
+""" % body
+
+
 def run_c25(tier):
     prop = "C25"
     res = Result(prop, tier)
@@ -539,8 +681,8 @@ def run_c25(tier):
             kw = dict(simulate=nsim, depth=maxwrites + maxtgs + 2, seed_=rng.randrange(1, 2 ** 31), workers=1, heap="2g",
                       timeout=900 if quick else 6000, cfg_text=vlib.cfg_text(consts, invariants=invs, view="View"))
         jobs.append(("Repl", name, kw))
-        info.append((ni, tflong, mode, nreplay, nsim, name))
-    for (ni, tflong, mode, nreplay, nsim, name), r in zip(info, tlc_parallel(jobs)):
+        info.append((ni, tflong, mode, nreplay, nsim, name, consts))
+    for pi, ((ni, tflong, mode, nreplay, nsim, name, consts), r) in enumerate(zip(info, tlc_parallel(jobs))):
         vlib.tlc_ok(r, name)
         if r["violated"]:
             raise Undecided("MODEL-DRIFT: %s violates %s in the model\n%s" % (name, r["violated"], r["out"][-3000:]))
@@ -552,13 +694,13 @@ def run_c25(tier):
         if nreplay is not None and len(got) > nreplay:
             got = rng.sample(got, nreplay)
         for b in got:
-            behs.append((ni, tflong, b))
+            behs.append((pi, ni, tflong, b))
     # ------------------------------ replay into master + replica ------------------------------
     mroot = os.path.join(vlib.scratch(), "master_c25")
     rroot = os.path.join(vlib.scratch(), "replica_c25")
     cases = [{"id": "start", "ops": [{"op": "repl_start", "x": {"master": mroot, "replica": rroot}}]}]
-    meta = {}
-    for n, (ni, tflong, beh) in enumerate(behs):
+    meta = []
+    for n, (pi, ni, tflong, beh) in enumerate(behs):
         c = ReplConc(rng, n, ni, tflong)
         ops = []
         for st in beh:
@@ -569,9 +711,8 @@ def run_c25(tier):
             ops.append({"op": "repl_use", "x": {"who": who}})
             ops.append({"op": "destroy", "key": c.keyF})
             ops.append({"op": "destroy", "key": c.keyV})
-        cid = "g%d" % n
-        cases.append({"id": cid, "ops": ops})
-        meta[json.dumps(cid)] = (c, beh, ops)
+        cases.append({"id": "g%d" % n, "ops": ops})
+        meta.append((pi, c, beh))
     vlib.log("[C25] %d histories concretised after %.0fs, replaying" % (len(meta), __import__("time").time() - res.t0))
     obs = vlib.run_cases(binary, cases, timeout=1500 if quick else 7000)
     shutil.rmtree(mroot, ignore_errors=True)
@@ -580,71 +721,107 @@ def run_c25(tier):
     st0 = obs.get(json.dumps("start"))
     if not isinstance(st0, list) or not st0[0].get("ok") or st0[0].get("same_catalog") or st0[0].get("same_wal"):
         raise Undecided("master / replica did not start as two separate instances: %s" % (st0,))
-    groups, mixed, multi, fidelity, dev_steps, tfs = 0, 0, 0, 0, {}, set()
-    for cid, (c, beh, ops) in meta.items():
-        o = obs.get(cid)
-        replay = {"check": "repl", "prop": prop, "concretisation": c.describe(), "behaviour": [s["tg"] for s in beh], "ops": ops,
-                  "seed": vlib.seed()}
+    # ------------------------------ what the real code did ------------------------------
+    # per history: ("died", text) | list of groups; a group is {"F": (master, replica, converged), "V": ..., "rerr": [...], "unsent": bool}
+    real, groups, mixed, multi, tfs = [], 0, 0, 0, set()
+    for n, (pi, c, beh) in enumerate(meta):
+        o = obs.get(json.dumps("g%d" % n))
         if o is None:
-            raise Undecided("no observation for case %s" % cid)
+            raise Undecided("no observation for case g%d" % n)
         if isinstance(o, dict) and "died" in o:
-            res.violation("process died (%s) while replicating %s / %s: %s" % (o["died"], c.keyF, c.keyV, o["stderr"][-500:]), replay)
+            real.append(("died", "%s: %s" % (o["died"], o["stderr"][-500:])))
             continue
         res.cov["traces_validated_against_impl"] += 1
         tfs.add(c.tfF)
         tfs.add(c.tfV)
         tolV = c.res_int + 1
-        tolF = -(-TFSEC[c.tfF] * 10 ** 9 // 2 ** 32) + 1
+        steps = []
         for k, st in enumerate(beh):
             g, sy, cmp_ = o[3 * k], o[3 * k + 1], o[3 * k + 2]
             for x in (g, sy, cmp_):
                 if x.get("driver_error") or x.get("panic"):
-                    raise Undecided("driver error in %s group %d: %s" % (cid, k, x))
+                    raise Undecided("driver error in g%d group %d: %s" % (n, k, x))
             bad_w = [x for x in g.get("results", []) if x is None or x.get("err") or x.get("panic")]
             if bad_w:
-                raise Undecided("a write on the master failed in %s group %d: %s" % (cid, k, bad_w))
+                raise Undecided("a write on the master failed in g%d group %d: %s" % (n, k, bad_w))
             if sy.get("tgs") and sy.get("tgs") != [c.shape(st["tg"])]:
                 # the requests were not flushed as the one group the model asked for: nothing can be concluded
                 raise Undecided("MODEL-DRIFT: the master sent groups %s, the model expects %s" % (sy.get("tgs"), [c.shape(st["tg"])]))
-            unsent = not sy.get("tgs")       # nothing was handed to the ReplicationSender for this flush
             groups += 1
             mixed += 1 if len(set(ws["b"] for ws in st["tg"])) > 1 else 0
             multi += 1 if len(st["tg"]) > 1 else 0
-            rerr = [e for e in sy.get("replay", []) if e]
-            bad = None
-            all_known = True
-            for b, key, kview in (("F", c.keyF, st["kF"]), ("V", c.keyV, st["kV"])):
+            step = {"rerr": [e for e in sy.get("replay", []) if e], "unsent": not sy.get("tgs")}
+            for b, key in (("F", c.keyF), ("V", c.keyV)):
                 m = rows_of(cmp_["master"][key], key)
                 r = rows_of(cmp_["replica"][key], key)
-                ok = converged(m, r, b == "V", tolV)
-                all_known = all_known and matches_view(c, b, kview, r, 2 * (tolV if b == "V" else tolF))
-                if not ok and bad is None:
-                    bad = (key, m, r)
-            fidelity += 1 if all_known else 0
-            if bad is None:
-                continue
-            key, m, r = bad
-            hit = st["hit"]
-            if hit and all_known:
-                for d in hit:
-                    dev_steps[d] = dev_steps.get(d, 0) + 1
-                    if d in known:
-                        res.known_finding(known[d], {"bucket": key, "groups": [x["tg"] for x in beh[:k + 1]], "master": str(m)[:300],
-                                                     "replica": str(r)[:300], "replay_error": rerr[:1]})
-                    else:
-                        res.violation("deviation %s observed but not listed as known: query %s after group %d: master %s, replica %s" % (
-                            d, key, k + 1, m, r), replay)
-                continue
-            res.violation("after transaction group %d (%s) the query of %s returns %s on the master and %s on the replica (replay errors: %s%s)" % (
-                k + 1, [x["tg"] for x in beh[:k + 1]], key, str(m)[:500], str(r)[:500], rerr,
-                "; the master handed no group to its ReplicationSender for this flush" if unsent else ""), replay)
-            break
+                step[b] = (m, r, converged(m, r, b == "V", tolV))
+            steps.append(step)
+        real.append(steps)
         res.sample({"concretisation": c.describe(), "groups": [s["tg"] for s in beh]}, limit=3)
+
+    def judge(pred):
+        violations, hits, stats = [], [], {"equal_to_model": 0, "deviation_steps": {}}
+        for n, (pi, c, beh) in enumerate(meta):
+            replay = {"check": "repl", "prop": prop, "concretisation": c.describe(), "behaviour": [s["tg"] for s in beh],
+                      "ops": cases[n + 1]["ops"], "seed": vlib.seed()}
+            if real[n] and real[n][0] == "died":
+                violations.append(("process died (%s) while replicating %s / %s" % (real[n][1], c.keyF, c.keyV), replay))
+                continue
+            tolV = c.res_int + 1
+            tolF = -(-TFSEC[c.tfF] * 10 ** 9 // 2 ** 32) + 1
+            for k, step in enumerate(real[n]):
+                bad = [(key, step[b][0], step[b][1]) for b, key in (("F", c.keyF), ("V", c.keyV)) if not step[b][2]]
+                mst = pred[n][k] if pred.get(n) is not None else None
+                all_known = mst is not None and matches_view(c, "F", mst["kF"], step["F"][1], 2 * tolF) and \
+                    matches_view(c, "V", mst["kV"], step["V"][1], 2 * tolV)
+                stats["equal_to_model"] += 1 if (all_known or (mst is None and not bad)) else 0
+                if not bad:
+                    continue
+                key, m, r = bad[0]
+                tgs = [x["tg"] for x in beh[:k + 1]]
+                if mst is not None and mst["hit"] and all_known:
+                    for d in mst["hit"]:
+                        stats["deviation_steps"][d] = stats["deviation_steps"].get(d, 0) + 1
+                        hits.append((d, {"bucket": key, "groups": tgs, "master": str(m)[:300], "replica": str(r)[:300],
+                                         "replay_error": step["rerr"][:1]}))
+                    continue
+                violations.append(("after transaction group %d (%s) the query of %s returns %s on the master and %s on the replica (replay errors: %s%s)" % (
+                    k + 1, tgs, key, str(m)[:500], str(r)[:500], step["rerr"],
+                    "; the master handed no group to its ReplicationSender for this flush" if step["unsent"] else ""), replay))
+                break
+        return violations, hits, stats
+
+    def alternatives():
+        need = {}
+        for n, (pi, c, beh) in enumerate(meta):
+            if real[n] and real[n][0] != "died" and any(not (step["F"][2] and step["V"][2]) for step in real[n]):
+                need.setdefault(pi, []).append(n)
+        jobs2, order = [], []
+        for pi, ns in sorted(need.items()):
+            jobs2.append(("Repl_Script", "script_%d.cfg" % pi, dict(
+                timeout=1500 if quick else 6000, heap="6g", workers=6,
+                files={"Repl_Script.tla": repl_script_module([[st["tg"] for st in meta[n][2]] for n in ns])},
+                cfg_text=vlib.cfg_text(info[pi][6], invariants=["EmitS"], init_next=("InitS", "NextS")))))
+            order.append(ns)
+        alt = {S: {} for S in subsets_desc(REPL_DEVS)}
+        for ns, r in zip(order, tlc_parallel(jobs2)):
+            vlib.tlc_ok(r, "Repl_Script")
+            res.tlc(r, "Repl_Script")
+            recs = r["records"].get("SBEH", [])
+            if len(recs) != len(ns) * 2 ** len(REPL_DEVS):
+                raise Undecided("Repl_Script emitted %d predictions for %d histories" % (len(recs), len(ns)))
+            for x in recs:
+                alt[frozenset(x["dv"])][ns[x["sid"] - 1]] = x["hist"]
+        return alt
+
+    primary = {n: beh for n, (pi, c, beh) in enumerate(meta)}
+    stats, S = report(res, known, settle(REPL_DEVS, judge, primary, alternatives), prop)
     res.cov["groups_replayed"] = groups
     res.cov["groups_with_several_write_sets"] = multi
     res.cov["groups_mixing_fixed_and_variable"] = mixed
-    res.cov["groups_equal_to_implementation_shaped_model"] = fidelity
-    res.cov["groups_showing_known_deviation"] = dev_steps
+    res.cov["groups_equal_to_implementation_shaped_model"] = stats["equal_to_model"]
+    res.cov["groups_showing_known_deviation"] = stats["deviation_steps"]
+    res.cov["deviations_of_the_tree_under_test"] = sorted(S)
     res.cov["timeframes"] = sorted(tfs, key=lambda t: TFSEC[t])
     res.assumptions += ["time zone UTC", "transport: the serialized group captured from ReplicationSender.Send is handed to Replayer.Replay directly",
                         "several client requests are forced into one transaction group with the hook WriteCSM.beforeFlush",
